@@ -174,14 +174,15 @@ func init() {
 			}
 			return []*Instance{
 				{Pkg: fsm, Func: "VH_C09_unary", Args: []int64{n, 2, v}, Unwind: 32},
-				{Pkg: fsm, Func: "VH_C09_stream", Args: []int64{n, 2, v}, Unwind: 32},
+				{Pkg: fsm, Func: "VH_C09_stream", Args: []int64{n, 2, v, 0}, Unwind: 32},
+				{Pkg: fsm, Func: "VH_C09_stream", Args: []int64{1, 2, -1, 1}, Unwind: 32},
 				{Pkg: fsm, Func: "VH_C09_chunks", Unwind: 32},
 				{Pkg: fsm, Func: "VH_C09_vacuity", Args: []int64{2, 2}, Expect: "violated"},
 			}
 		},
 		Covers: map[string][]string{"VH_C09_unary": {"end", "exactly-one-beyond-limit", "limit-equals-matches"}, "VH_C09_stream": {"end"}, "VH_C09_chunks": {"end", "cut"}},
 		Bounds: map[string]string{
-			"quick":    "table of 0..2 pairs (keys 1..2 bytes, 1-byte values), arbitrary bounds (0..2 bytes, wildcard, inverted), limit 0..3 (less, equal, equal+1, greater than the matches), all flag variants; unary and streamed reads; size cuts: 3 pairs with values of 1 byte / 1.5 MiB / 2 MiB in every combination, streamed with a delete and a put applied between the first two messages; unwind 32",
+			"quick":    "table of 0..2 pairs (keys 1..2 bytes, 1-byte values), arbitrary bounds (0..2 bytes, wildcard, inverted), limit 0..3 (less, equal, equal+1, greater than the matches), all flag variants; unary and streamed reads, and a streamed read over 0..1 pairs with a point read and a count-only range read of arbitrary keys served between opening the stream and its first pull; size cuts: 3 pairs with values of 1 byte / 1.5 MiB / 2 MiB in every combination, streamed with a delete and a put applied between the first two messages; unwind 32",
 			"thorough": "0..3 pairs, values 0..1 bytes, limit 0..4",
 		},
 		Outside:     "value sizes other than the three classes of the size-cut harness (1 byte, 1.5 MiB, 2 MiB: sizes are concrete there); gRPC transport; more pairs than the bound",
@@ -323,6 +324,7 @@ func init() {
 				{Pkg: tb, Func: "VH_C14_race", Args: []int64{0}, Unwind: 64},
 				{Pkg: tb, Func: "VH_C14_diff", Args: []int64{2, 1}, Unwind: 64},
 				{Pkg: tb, Func: "VH_C14_diff", Args: []int64{1, 2}, Unwind: 64},
+				{Pkg: tb, Func: "VH_C14_reconcile", Unwind: 64, EngineOnly: true},
 				{Pkg: tb, Func: "VH_C14_vacuity", Expect: "violated"},
 			}
 			if tier == "thorough" {
@@ -330,9 +332,9 @@ func init() {
 			}
 			return r
 		},
-		Covers: map[string][]string{"VH_C14_step": {"end", "create-ok", "create-exists", "delete-ok"}, "VH_C14_recreate": {"end"}, "VH_C14_race": {"end", "one-wins"}, "VH_C14_diff": {"end", "start", "stop"}},
+		Covers: map[string][]string{"VH_C14_step": {"end", "create-ok", "create-exists", "delete-ok"}, "VH_C14_recreate": {"end"}, "VH_C14_race": {"end", "one-wins"}, "VH_C14_diff": {"end", "start", "stop"}, "VH_C14_reconcile": {"end", "start", "stop"}},
 		Bounds: map[string]string{
-			"quick":    "catalogue over 3 names with arbitrary membership, ids drawn from (10000, seq] for seq in {absent, 10003, 10007}, arbitrary record versions; one create/delete/list step; delete+recreate; two racing creates (of one name, and of two different names) with every interleaving of their store accesses; diffTables over 2 records x 1 running shard and 1 record x 2 running shards (ids and recover-ids 64-bit symbolic) under all map orders",
+			"quick":    "catalogue over 3 names with arbitrary membership, ids drawn from (10000, seq] for seq in {absent, 10003, 10007}, arbitrary record versions; one create/delete/list step; delete+recreate; two racing creates (of one name, and of two different names) with every interleaving of their store accesses; diffTables over 2 records x 1 running shard and 1 record x 2 running shards (ids and recover-ids 64-bit symbolic) under all map orders; the whole Manager.reconcile (engine only) over a catalogue of 0..2 tables with table id and optional recovery id (also recovery id alone) from 10001..10004 and every subset of 10001..10004 running: exactly the missing catalogued ids are started under their own id, exactly the uncatalogued running ones stopped",
 			"thorough": "diffTables 2 x 2",
 		},
 		Outside:     "emptiness of a (re)created table's data (the state-machine directory is derived from name and id; exercising FSM.Open needs the file-system model: see C04) and isolation between shards; names containing '/'; actual shard start/stop inside dragonboat; Restore's id switch",
@@ -483,6 +485,8 @@ func init() {
 				{Pkg: tb, Func: "VH_C07_restore", Args: []int64{0}, Unwind: 64},
 				{Pkg: tb, Func: "VH_C07_restore", Args: []int64{1}, Unwind: 64},
 				{Pkg: tb, Func: "VH_C07_restore", Args: []int64{2}, Unwind: 64},
+				{Pkg: "storage/table/fsm", Func: "VH_C07_stream", Args: []int64{2}, Unwind: 64},
+				{Pkg: "storage/table/fsm", Func: "VH_C07_pointintime", Unwind: 64, EngineOnly: true},
 				{Pkg: tb, Func: "VH_C07_vacuity", Expect: "violated"},
 			}
 			if tier == "thorough" {
@@ -490,12 +494,12 @@ func init() {
 			}
 			return r
 		},
-		Covers: map[string][]string{"VH_C07_restore": {"end", "threshold-on-first-record"}},
+		Covers: map[string][]string{"VH_C07_restore": {"end", "threshold-on-first-record"}, "VH_C07_stream": {"end"}, "VH_C07_pointintime": {"end", "old", "new"}},
 		Bounds: map[string]string{
-			"quick":    "streams of 0..2 records (PUT commands with arbitrary 1-byte keys and values, in key order) plus the final index-carrying command, restored into an empty table with an arbitrary 64-bit MaxInMemLogSize (incl. 0), so the batch threshold falls on every record position; declared index 1..64",
+			"quick":    "streams of 0..2 records (PUT commands with arbitrary 1-byte keys and values, in key order) plus the final index-carrying command, restored into an empty table with an arbitrary 64-bit MaxInMemLogSize (incl. 0), so the batch threshold falls on every record position; declared index 1..64; production: FSM.Lookup(SnapshotRequest) / commandSnapshot / writeCommand over an arbitrary table of 0..2 pairs (keys 1..2 bytes, values 0..1 bytes, arbitrary bookkeeping): exactly the pairs in order and the applied index; point in time (engine only): one put applied concurrently with the production of a stream over 0..1 pairs, every interleaving of their database operations: the stream is the table at exactly the index it declares",
 			"thorough": "0..3 records",
 		},
-		Outside:     "production of the stream on the leader (commandSnapshot over a pinned Pebble snapshot: point-in-time is Pebble's snapshot isolation, model M1), the chunk transport and file framing (C18), Manager.Restore's shard start / leader wait / catalogue switch (C14), retry timing, the backup manifest's md5 check, large values",
+		Outside:     "Pebble's snapshot isolation itself (model M1); interleavings finer than one database operation; the chunk transport and file framing (C18), Manager.Restore's shard start / leader wait / catalogue switch (C14), retry timing, the backup manifest's md5 check, large values",
 		Assumptions: []string{"M1, M2 (proposals applied by the real FSM.Update), backoff.Retry calls the proposal at most twice", "one Read call of the source delivers one record (snapshotFile.Read contract, C18)"},
 	}
 	props["C05"] = &Property{
